@@ -12,6 +12,10 @@
 (*                    source; else look ahead one item if needed; item of  *)
 (*                    another key -> stop (item kept); else hand it out    *)
 (*   Step             (inside both) pull one item and compute its key      *)
+(*   CloseGroup(g)    aclose() of group g (asyncstdlib only; a sync group  *)
+(*                    has no close): the live group becomes stale, a stale *)
+(*                    group's close changes nothing -- in particular it    *)
+(*                    does not disturb the group that is live now          *)
 (*                                                                         *)
 (* The data is fixed by Init; pulls (including end-of-source detections)   *)
 (* and key calls are counted, so laziness is part of the state.            *)
@@ -92,7 +96,13 @@ AdvanceGroup(g) ==
           /\ UNCHANGED <<stops, tgt, live, ngroups, gkey>>
   /\ UNCHANGED data
 
-Next == AdvanceGB \/ \E g \in 1..MaxGroups : AdvanceGroup(g)
+CloseGroup(g) ==
+  /\ g \in 1..ngroups /\ stops < MaxStops
+  /\ live' = (IF live = g THEN 0 ELSE live)
+  /\ last' = <<"close", g, "closed", 0, 0>>
+  /\ UNCHANGED <<data, pos, stops, curIdx, curHas, tgt, ngroups, gkey>>
+
+Next == AdvanceGB \/ \E g \in 1..MaxGroups : AdvanceGroup(g) \/ CloseGroup(g)
 Spec == Init /\ [][Next]_vars
 
 ---------------------------------------------------------------------------
